@@ -142,6 +142,15 @@ def run(ctx):
         g = gen.Gen(rng, cfg)
         for i in range(n):
             stmts, m = g.document()
+            if i % 5 == 4:
+                # reals outside the range of a double (overflow, underflow): they are still reals, and the
+                # substitute class gets their text; top level, in a sequence, as a quantity magnitude
+                big = rng.choice(["1.5E+400", "-2.5e999", "1e-400", "9E+308", "1.8e308"])
+                extra = [["Xbig%d" % i, "=", big], ["Xseq%d" % i, "=", "(", "1", ",", big, ")"],
+                         ["Xq%d" % i, "=", big, "<m>"]]
+                cut = next((k for k, st in enumerate(stmts) if st and st[0].upper() in
+                            ("END", "GROUP", "OBJECT", "BEGIN_GROUP", "BEGIN_OBJECT")), len(stmts))
+                stmts = list(stmts[:cut]) + extra + list(stmts[cut:])
             text = g.render(stmts)
             total += 1
             try:
